@@ -44,29 +44,42 @@ def check(chk):
     chk.rule('C42.atomic', 'Metadata.add_or_return_host / remove_host are test-and-set under _hosts_lock; Cluster.add_host / remove_host signal only on change')
     cl = chk.repo.mod(CLUSTER)
     vp = cl.func('ControlConnection._is_valid_peer')
-    rets = [n for n in body_walk(vp) if isinstance(n, ast.Return)]
-    if len(rets) != 1:
-        raise AnalysisError('_is_valid_peer: single return expected')
-    e = rets[0].value
-    if isinstance(e, ast.Call) and src(e.func) == 'bool':
-        e = e.args[0]
-    vs, op = tri_vars(e)
-    atoms = sorted(op)
-    fields = {"_NodeInfo.get_broadcast_rpc_address(row)": 'address', "row.get('host_id')": 'host_id', "row.get('data_center')": 'data_center', "row.get('rack')": 'rack',
-              "row.get('tokens')": 'tokens', "'tokens' in row": 'tokens column exists'}
-    unknown = [a for a in atoms if a not in fields]
-    if unknown or len(atoms) < 6:
-        raise AnalysisError('_is_valid_peer uses unrecognised atoms %s / %s' % (unknown, atoms))
-    bad = []
-    for combo in itertools.product((False, True), repeat=len(atoms)):
-        oenv = dict(zip(atoms, combo))
-        if oenv["row.get('tokens')"] and not oenv["'tokens' in row"]:
+    # the predicate is interpreted for every presence combination of the six things a row can have (guard clauses, loops over column names and a
+    # single boolean expression all come out the same)
+    from ..absint import Interp as _I42
+    names42 = ('address', 'host_id', 'data_center', 'rack', 'tokens', 'tokens column exists')
+    bad, n_combo = [], 0
+    for combo in itertools.product((False, True), repeat=6):
+        pres = dict(zip(names42, combo))
+        if pres['tokens'] and not pres['tokens column exists']:
             continue
-        got = tri_eval(e, dict((v, TRUTHY) for v in vs), oenv)
-        want = all(oenv[a] for a in atoms if fields[a] in ('address', 'host_id', 'data_center', 'rack')) and (not oenv["'tokens' in row"] or oenv["row.get('tokens')"])
-        if bool(got) != want:
-            bad.append(dict((fields[a], v) for a, v in oenv.items()))
-    chk.judge(not bad, 'C42.valid', vp, '_is_valid_peer over %d presence combinations' % (2 ** len(atoms)), 'a row is accepted/rejected wrongly for %s' % bad[:2])
+        row = {}
+        for k_ in ('host_id', 'data_center', 'rack'):
+            row[k_] = 'x' if pres[k_] else None
+        if pres['tokens column exists']:
+            row['tokens'] = ('1',) if pres['tokens'] else None
+        used = set()
+
+        def effect(interp, node, c, args, kwargs, env, row=row, pres=pres, used=used):
+            if c == ('row', 'get') and args and isinstance(args[0], str):
+                used.add(args[0])
+                return row.get(args[0], args[1] if len(args) > 1 else None)
+            if c == ('_NodeInfo', 'get_broadcast_rpc_address'):
+                used.add('address')
+                return '10.0.0.1' if pres['address'] else None
+            return NotImplemented
+        it42 = _I42(cl, effect=effect)
+        try:
+            outs42 = it42.run_all(vp, {'row': row})
+        except Exception as e42:
+            raise AnalysisError('_is_valid_peer could not be interpreted: %s' % e42)
+        n_combo += 1
+        want = all(pres[a] for a in ('address', 'host_id', 'data_center', 'rack')) and (not pres['tokens column exists'] or pres['tokens'])
+        for o in outs42:
+            if o.kind != 'ok' or isinstance(o.value, (type(None),)) and want or bool(o.value) != want or not isinstance(o.value, bool):
+                bad.append((dict(pres), o.value))
+    atoms = names42
+    chk.judge(not bad, 'C42.valid', vp, '_is_valid_peer interpreted over %d presence combinations; the result is a bool' % n_combo, 'a row is accepted/rejected wrongly for %s' % bad[:2])
 
     rf = cl.func('ControlConnection._refresh_node_list_and_token_map')
     loops = [n for n in rf.body if isinstance(n, ast.For) and src(n.iter) == 'peers_result']
@@ -201,7 +214,35 @@ def check(chk):
     meta = chk.repo.mod(META)
     ar = meta.func('Metadata.add_or_return_host')
     w = [st for st in ar.body if isinstance(st, ast.With)]
-    good = len(w) == 1 and src(w[0].items[0].context_expr) == 'self._hosts_lock' and 'return (self._hosts[host.endpoint], False)' in src(w[0]) and 'self._hosts[host.endpoint] = host' in src(w[0]) and 'return (host, True)' in src(w[0])
+    good = len(w) == 1 and src(w[0].items[0].context_expr) == 'self._hosts_lock'
+    if good:
+        # inside the one locked region: the lookup, the insertion and both returns (temporaries followed one step)
+        region = w[0]
+        inside = set(id(x) for x in ast.walk(region))
+        looks = [x for x in ast.walk(region) if isinstance(x, ast.Subscript) and src(x) == 'self._hosts[host.endpoint]' and isinstance(x.ctx, ast.Load)]
+        ins = [st for st in ast.walk(region) if isinstance(st, ast.Assign) and src(st.targets[0]) == 'self._hosts[host.endpoint]' and src(st.value) == 'host']
+        rets_ = [r for r in body_walk(ar) if isinstance(r, ast.Return)]
+        kinds = set()
+        for r in rets_:
+            v = r.value
+            if not (isinstance(v, ast.Tuple) and len(v.elts) == 2 and isinstance(v.elts[1], ast.Constant) and isinstance(v.elts[1].value, bool)):
+                kinds.add('other')
+                continue
+            first = v.elts[0]
+            if isinstance(first, ast.Name) and first.id != 'host':
+                ds = [st for st in ast.walk(region) if isinstance(st, ast.Assign) and len(st.targets) == 1 and src(st.targets[0]) == first.id]
+                first = ds[0].value if len(ds) == 1 else first
+            if src(first) == 'self._hosts[host.endpoint]' and v.elts[1].value is False:
+                kinds.add('known')
+            elif src(first) == 'host' and v.elts[1].value is True:
+                kinds.add('new')
+            else:
+                kinds.add('other')
+            if id(r) not in inside:
+                # a return after the region is fine only if it hands on what was read inside it
+                if not (isinstance(v.elts[0], ast.Name) and v.elts[0].id != 'host'):
+                    kinds.add('other')
+        good = len(looks) == 1 and len(ins) == 1 and kinds == set(['known', 'new'])
     chk.judge(good, 'C42.atomic', ar, 'add_or_return_host: lookup-or-insert under _hosts_lock, reports whether it inserted', 'add_or_return_host is no longer an atomic test-and-set')
     rh = meta.func('Metadata.remove_host')
     good = 'with self._hosts_lock' in src(rh) and 'return bool(self._hosts.pop(host.endpoint, False))' in src(rh)
